@@ -25,7 +25,9 @@ func init() {
 			"the dispatched roots are the DFS result; (R3) every function that derives a descriptor's artifact type from decoded manifest content takes artifactType, falls " +
 			"back to config.mediaType only when artifactType is empty (image manifests), and handles image manifest, image index and artifact manifest alike — compared across " +
 			"registry.Referrers, the referrers-index update on push and the FilterArtifactType fetch path; (R4) FilterAnnotation fetches missing annotations for each of the " +
-			"five manifest kinds; (R5) ExtendedCopy tags the resolved node with the destination reference on every successful return (same obligation as C01.R4(e)). " +
+			"five manifest kinds; (R6) in the FindPredecessors wrappers installed by FilterAnnotation / FilterArtifactType the per-page Referrers callback only ever appends to " +
+			"the captured accumulator, every referrer of a page and every listed predecessor reaches the keep test and is appended on its true edge, and the wrapper returns that " +
+			"accumulator / the kept slice; (R5) ExtendedCopy tags the resolved node with the destination reference on every successful return (same obligation as C01.R4(e)). " +
 			"The wait-before-push ordering inside each root's copy is C02.R1 and is not repeated here. NOT decided (not applicable to static analysis): the " +
 			"reachability/closure statement itself, regular-expression semantics, the listing behaviour of remote sources, byte identity of copied content.",
 		Run:     runC03,
@@ -40,6 +42,7 @@ func runC03(c *Ctx) {
 	c03R3(c)
 	c03R4(c)
 	c01TagsGivenNode(c, "C03.R5.tags-given-node")
+	c03R6(c)
 }
 
 // ---------- R1: findRoots shape ----------
@@ -1087,11 +1090,368 @@ func c03R4(c *Ctx) {
 	}
 }
 
+// ---------- R6: the filter wrappers keep every match ----------
+
+type c03FilterLoop struct {
+	ok      bool
+	why     string
+	accPhi  *ssa.Phi  // accumulator carried as a loop phi, or
+	accCell ssa.Value // accumulator held in a cell (captured variable / local)
+	loop    *Loop
+}
+
+// c03CheckFilterLoop analyses one `for _, e := range X` over descriptors in G
+// that filters e through a keep test into an accumulator.
+func c03CheckFilterLoop(G *ssa.Function, l *Loop, descMT *types.Var) (res c03FilterLoop, isFilter bool) {
+	X, idx, body, _, _ := l.RangeIndex()
+	res.loop = l
+	header := l.Header.Instrs[0]
+	derivesElem := func(v ssa.Value) bool {
+		return c01Slice(v, func(x ssa.Value) bool {
+			ia, ok := x.(*ssa.IndexAddr)
+			return ok && c01SameStrip(ia.X, X) && ia.Index == idx
+		})
+	}
+	isMT := func(v ssa.Value) bool { return c01IsFieldValue(v, descMT) }
+	var keepIfs []ssa.Instruction
+	var keepTrue []Edge
+	for _, i := range Ifs(G) {
+		if !l.Contains(i) || i.Block() == l.Header {
+			continue
+		}
+		cond, t, _ := ifEdges(i)
+		call, ok := cond.(*ssa.Call)
+		if !ok || strings.HasPrefix(CalleeName(call), "builtin:") {
+			continue
+		}
+		if g := StaticCallee(call); g != nil && inModule(g) && len(c01StrTests(g, isMT)) > 0 {
+			continue // media-type dispatch predicate, not the filter
+		}
+		uses := false
+		for _, a := range call.Call.Args {
+			if derivesElem(a) {
+				uses = true
+			}
+		}
+		if uses {
+			keepIfs = append(keepIfs, i)
+			keepTrue = append(keepTrue, t)
+		}
+	}
+	// appends of the element
+	var appends []*ssa.Call
+	AllInstrs(G, func(in ssa.Instruction) {
+		call, ok := in.(*ssa.Call)
+		if !ok || !l.Contains(call) || CalleeName(call) != "builtin:append" || len(call.Call.Args) != 2 {
+			return
+		}
+		if derivesElem(call.Call.Args[1]) {
+			appends = append(appends, call)
+		}
+	})
+	if len(keepIfs) == 0 && len(appends) == 0 {
+		return res, false
+	}
+	isFilter = true
+	if len(keepIfs) == 0 {
+		res.why = "elements are appended but no keep test on the element is recognised"
+		return
+	}
+	if len(appends) == 0 {
+		res.why = "the loop tests elements but never appends one to an accumulator"
+		return
+	}
+	// accumulator identity
+	for _, ap := range appends {
+		a0 := ap.Call.Args[0]
+		if phi, ok := a0.(*ssa.Phi); ok && phi.Block() == l.Header {
+			if res.accPhi != nil && res.accPhi != phi {
+				res.why = "several accumulators"
+				return
+			}
+			res.accPhi = phi
+			continue
+		}
+		if ld, ok := a0.(*ssa.UnOp); ok && ld.Op == token.MUL {
+			switch ld.X.(type) {
+			case *ssa.FreeVar, *ssa.Alloc:
+				if res.accCell != nil && res.accCell != ld.X {
+					res.why = "several accumulators"
+					return
+				}
+				res.accCell = ld.X
+				continue
+			}
+		}
+		res.why = "an element is appended to something that is not the loop's accumulator (not the value carried from the previous iteration)"
+		return
+	}
+	if res.accPhi != nil && res.accCell != nil {
+		res.why = "several accumulators"
+		return
+	}
+	// (b1) every iteration reaches the keep test
+	if reach(body.To, 0, header, newCut().Instr(keepIfs...)) {
+		res.why = "an iteration can finish without the element reaching the keep test"
+		return
+	}
+	// (b2) on the keep edge the element is appended (and, for a cell, stored back)
+	kept := newCut()
+	for _, ap := range appends {
+		if res.accPhi != nil {
+			kept.Instr(ap)
+			continue
+		}
+		for _, r := range *ap.Referrers() {
+			if st, ok := r.(*ssa.Store); ok && st.Addr == res.accCell && st.Val == ssa.Value(ap) {
+				kept.Instr(st)
+			}
+		}
+	}
+	for _, e := range keepTrue {
+		if reach(e.To, 0, header, kept) {
+			res.why = "an element that passes the keep test can reach the next iteration without being appended to the accumulator"
+			return
+		}
+	}
+	// (a) for a phi accumulator: the value carried around the loop is the accumulator itself or append(accumulator, element)
+	if res.accPhi != nil {
+		isAppend := func(v ssa.Value) bool {
+			for _, ap := range appends {
+				if v == ssa.Value(ap) {
+					return true
+				}
+			}
+			return false
+		}
+		var okVal func(v ssa.Value, d int) bool
+		okVal = func(v ssa.Value, d int) bool {
+			if v == ssa.Value(res.accPhi) || isAppend(v) {
+				return true
+			}
+			if p, ok := v.(*ssa.Phi); ok && d < 6 && l.Blocks[p.Block()] {
+				for _, e := range p.Edges {
+					if !okVal(e, d+1) {
+						return false
+					}
+				}
+				return true
+			}
+			return false
+		}
+		for i, ev := range res.accPhi.Edges {
+			if l.Blocks[l.Header.Preds[i]] && !okVal(ev, 0) {
+				res.why = "the accumulator is replaced inside the loop by something else than itself or append(accumulator, element): earlier matches are lost"
+				return
+			}
+		}
+	}
+	res.ok = true
+	return
+}
+
+// c03CellOnlyAppended: every store to cell in G is append(<load of cell>, …).
+func c03CellOnlyAppended(G *ssa.Function, cell ssa.Value) (bool, token.Pos) {
+	ok, pos := true, token.NoPos
+	AllInstrs(G, func(in ssa.Instruction) {
+		st, isStore := in.(*ssa.Store)
+		if !isStore || st.Addr != cell {
+			return
+		}
+		call, isCall := st.Val.(*ssa.Call)
+		good := isCall && CalleeName(call) == "builtin:append" && len(call.Call.Args) >= 1
+		if good {
+			ld, isLoad := call.Call.Args[0].(*ssa.UnOp)
+			good = isLoad && ld.Op == token.MUL && ld.X == cell
+		}
+		if !good && ok {
+			ok, pos = false, st.Pos()
+		}
+	})
+	return ok, pos
+}
+
+func c03R6(c *Ctx) {
+	const R = "C03.R6.filter-keeps-every-match"
+	c.Expect(R, 12)
+	fpOpt := c01FieldOf(c.P, "", "ExtendedCopyGraphOptions", "FindPredecessors")
+	descMT := c01FieldOf(c.P, c01OCISpec, "Descriptor", "MediaType")
+	if fpOpt == nil || descMT == nil {
+		c.LostAnchor(R, "~.ExtendedCopyGraphOptions.FindPredecessors")
+		return
+	}
+	isDescSlice := func(t types.Type) bool {
+		sl, ok := t.Underlying().(*types.Slice)
+		return ok && c01IsOCIDescriptor(sl.Elem())
+	}
+	nWrappers := 0
+	for _, F := range c.P.FuncsOfPkg("") {
+		for _, st := range c04FieldStores(F, fpOpt) {
+			mc, ok := st.Val.(*ssa.MakeClosure)
+			if !ok {
+				continue
+			}
+			W := mc.Fn.(*ssa.Function)
+			wk := c01OuterName(W) + "$wrapper"
+			// --- the Referrers page callback ---
+			for _, rc := range CallsTo(W, "(~/registry.ReferrerLister).Referrers") {
+				nWrappers++
+				ck := c01OuterName(W) + "$page-callback"
+				args := rc.Common().Args
+				var cb *ssa.MakeClosure
+				for _, r := range Roots(args[len(args)-1]) {
+					if m, ok := r.(*ssa.MakeClosure); ok {
+						cb = m
+					}
+				}
+				if cb == nil {
+					c.Undecided(R, ck+"|accumulator-only-appended", rc.Pos(), "the page callback handed to Referrers is not a closure literal")
+					continue
+				}
+				G := cb.Fn.(*ssa.Function)
+				var fl *c03FilterLoop
+				for _, l := range Loops(G) {
+					if X, _, _, _, ok := l.RangeIndex(); ok && isDescSlice(X.Type()) && c01ParamOf(X) != nil {
+						if r, isF := c03CheckFilterLoop(G, l, descMT); isF {
+							fl = &r
+						}
+					}
+				}
+				if fl == nil {
+					c.Undecided(R, ck+"|every-referrer-tested-and-kept", G.Pos(), "no filtering loop over the page of referrers recognised in the callback")
+					continue
+				}
+				c.Check(R, ck+"|every-referrer-tested-and-kept", blockPos(fl.loop.Header), fl.ok,
+					ifelse(fl.ok, "every referrer of a page reaches the keep test and is appended to the accumulator on its true edge", fl.why))
+				fv, isFV := fl.accCell.(*ssa.FreeVar)
+				if !fl.ok || !isFV {
+					if fl.ok {
+						c.Undecided(R, ck+"|accumulator-only-appended", G.Pos(), "the callback's accumulator is not a captured variable: matches of earlier pages cannot be followed")
+					}
+					continue
+				}
+				okA, posA := c03CellOnlyAppended(G, fv)
+				if okA {
+					posA = G.Pos()
+				}
+				c.Check(R, ck+"|accumulator-only-appended", posA, okA,
+					ifelse(okA, "every store to the captured accumulator is append(<its current value>, …)", "the captured accumulator is overwritten inside the per-page callback (make / nil / literal / re-slice): only the last page's matches survive, a matching referrer on an earlier page is never followed"))
+				// (c) the wrapper returns that accumulator, untouched after the listing
+				var cell *ssa.Alloc
+				for i, x := range G.FreeVars {
+					if x == fv {
+						cell, _ = cb.Bindings[i].(*ssa.Alloc)
+					}
+				}
+				okC := cell != nil
+				if okC {
+					for _, s2 := range storesTo(cell) {
+						if Reachable(rc.(ssa.Instruction), s2) {
+							okC = false
+						}
+					}
+					n := 0
+					if e := ErrOf(rc); e != nil {
+						nilE, _, _ := NilTests(W, Aliases(e))
+						for _, ne := range nilE {
+							for _, ret := range Returns(W) {
+								if !reach(ne.To, 0, ret, nil) || c01IsErrorReturn(ret, ErrResultIndex(W.Signature)) {
+									continue
+								}
+								n++
+								ld, isLoad := ret.Results[0].(*ssa.UnOp)
+								if !isLoad || ld.Op != token.MUL || ld.X != ssa.Value(cell) {
+									// falling through to the second filtering stage is fine as long as it ranges over the cell
+									okC = false
+								}
+							}
+						}
+					}
+					if n == 0 {
+						okC = false
+					}
+				}
+				c.Check(R, wk+"|returns-page-accumulator", rc.Pos(), okC,
+					ifelse(okC, "after a successful listing the wrapper returns the accumulator the callback appended to", "after a successful Referrers listing the wrapper does not return the accumulator filled by the page callback (or overwrites it)"))
+			}
+			// --- the filtering loop over listed predecessors ---
+			var fl *c03FilterLoop
+			for _, l := range Loops(W) {
+				if X, _, _, _, ok := l.RangeIndex(); ok && isDescSlice(X.Type()) {
+					if r, isF := c03CheckFilterLoop(W, l, descMT); isF {
+						fl = &r
+					}
+				}
+			}
+			if fl == nil {
+				if len(CallsTo(W, "(~/registry.ReferrerLister).Referrers")) > 0 {
+					c.Undecided(R, wk+"|every-predecessor-tested-and-kept", W.Pos(), "no filtering loop over the listed predecessors recognised in the wrapper")
+				}
+				continue
+			}
+			c.Check(R, wk+"|every-predecessor-tested-and-kept", blockPos(fl.loop.Header), fl.ok,
+				ifelse(fl.ok, "every listed predecessor reaches the keep test and is appended on its true edge; the kept slice only grows by append", fl.why))
+			if !fl.ok {
+				continue
+			}
+			// the ranged list is what the predecessor lookup returned
+			X, _, _, exit, _ := fl.loop.RangeIndex()
+			okX := c01Slice(X, func(x ssa.Value) bool {
+				ex, isEx := x.(*ssa.Extract)
+				if !isEx || ex.Index != 0 {
+					return false
+				}
+				call, isCall := ex.Tuple.(*ssa.Call)
+				return isCall && (CalleeName(call) == "(~/content.PredecessorFinder).Predecessors" || strings.HasPrefix(CalleeName(call), "dyn:"))
+			})
+			c.Check(R, wk+"|filters-the-listed-predecessors", blockPos(fl.loop.Header), okX,
+				ifelse(okX, "the loop ranges over what src.Predecessors / the previous FindPredecessors returned", "the filtering loop does not range over the predecessors that were looked up"))
+			okR, n := true, 0
+			for _, ret := range Returns(W) {
+				if !reach(exit.To, 0, ret, nil) || c01IsErrorReturn(ret, ErrResultIndex(W.Signature)) {
+					continue
+				}
+				n++
+				switch {
+				case fl.accPhi != nil:
+					if strip(ret.Results[0]) != ssa.Value(fl.accPhi) {
+						okR = false
+					}
+				default:
+					ld, isLoad := ret.Results[0].(*ssa.UnOp)
+					if !isLoad || ld.X != fl.accCell {
+						okR = false
+					}
+				}
+			}
+			c.Check(R, wk+"|returns-kept", W.Pos(), okR && n > 0,
+				ifelse(okR && n > 0, "after the loop the wrapper returns the kept slice", "the wrapper's successful result after filtering is not the kept slice"))
+		}
+	}
+	if nWrappers == 0 {
+		c.LostAnchor(R, "FindPredecessors wrappers using ReferrerLister.Referrers with a page callback (FilterAnnotation / FilterArtifactType)")
+	}
+}
+
 var c03Mutants = []Mutant{
 	// --- the repository's own test suite stays green under these (verified in a scratch copy) ---
 	{Name: "only-manifest-predecessors-followed", File: "extendedcopy.go",
 		Old: "\t\t\tif !visited.Contains(predecessorKey) {",
 		New: "\t\t\tif !visited.Contains(predecessorKey) && descriptor.IsManifest(predecessor) {", Expect: "C03.R1.find-roots-shape|~.findRoots|every-predecessor-pushed"},
+	{Name: "page-accumulator-reset", File: "extendedcopy.go",
+		Old: "\t\t\t\t\t// for each page of the results, filter the referrers\n\t\t\t\t\tfor _, r := range referrers {\n\t\t\t\t\t\tif keep(r) {\n\t\t\t\t\t\t\tpredecessors = append(predecessors, r)\n\t\t\t\t\t\t}\n\t\t\t\t\t}\n\t\t\t\t\treturn nil\n\t\t\t\t}); err != nil {\n\t\t\t\t\treturn nil, err\n\t\t\t\t}\n\t\t\t\treturn predecessors, nil\n\t\t\t}\n\t\t\tpredecessors, err = src.Predecessors(ctx, desc)\n\t\t} else {\n\t\t\tpredecessors, err = fp(ctx, src, desc)\n\t\t}\n\t\tif err != nil {\n\t\t\treturn nil, err\n\t\t}\n\n\t\t// predecessor descriptors",
+		New: "\t\t\t\t\t// for each page of the results, filter the referrers\n\t\t\t\t\tpredecessors = predecessors[:0]\n\t\t\t\t\tfor _, r := range referrers {\n\t\t\t\t\t\tif keep(r) {\n\t\t\t\t\t\t\tpredecessors = append(predecessors, r)\n\t\t\t\t\t\t}\n\t\t\t\t\t}\n\t\t\t\t\treturn nil\n\t\t\t\t}); err != nil {\n\t\t\t\t\treturn nil, err\n\t\t\t\t}\n\t\t\t\treturn predecessors, nil\n\t\t\t}\n\t\t\tpredecessors, err = src.Predecessors(ctx, desc)\n\t\t} else {\n\t\t\tpredecessors, err = fp(ctx, src, desc)\n\t\t}\n\t\tif err != nil {\n\t\t\treturn nil, err\n\t\t}\n\n\t\t// predecessor descriptors",
+		Expect: "C03.R6.filter-keeps-every-match|(*~.ExtendedCopyGraphOptions).FilterArtifactType$page-callback|accumulator-only-appended"},
+	{Name: "kept-restarts-after-fetch", File: "extendedcopy.go",
+		Old: "\t\t\t\t\tp.ArtifactType = artifactType\n\t\t\t\t}\n\t\t\t}\n\t\t\tif keep(p) {", New: "\t\t\t\t\tp.ArtifactType = artifactType\n\t\t\t\t\tkept = nil\n\t\t\t\t}\n\t\t\t}\n\t\t\tif keep(p) {",
+		Expect: "C03.R6.filter-keeps-every-match|(*~.ExtendedCopyGraphOptions).FilterArtifactType$wrapper|every-predecessor-tested-and-kept"},
+	{Name: "annotation-filter-stops-at-first-mismatch", File: "extendedcopy.go",
+		Old: "\t\t\t\t\tp.Annotations = annotations\n\t\t\t\t}\n\t\t\t}\n\t\t\tif keep(p) {\n\t\t\t\tkept = append(kept, p)\n\t\t\t}", New: "\t\t\t\t\tp.Annotations = annotations\n\t\t\t\t}\n\t\t\t}\n\t\t\tif len(p.Annotations) == 0 {\n\t\t\t\tcontinue\n\t\t\t}\n\t\t\tif keep(p) {\n\t\t\t\tkept = append(kept, p)\n\t\t\t}",
+		Expect: "C03.R6.filter-keeps-every-match|(*~.ExtendedCopyGraphOptions).FilterAnnotation$wrapper|every-predecessor-tested-and-kept"},
+	{Name: "referrers-path-returns-nil-list", File: "extendedcopy.go",
+		Old: "\t\t\t\treturn predecessors, nil\n\t\t\t}\n\t\t\tpredecessors, err = src.Predecessors(ctx, desc)\n\t\t} else {\n\t\t\tpredecessors, err = fp(ctx, src, desc)\n\t\t}\n\t\tif err != nil {\n\t\t\treturn nil, err\n\t\t}\n\n\t\t// Predecessor descriptors",
+		New: "\t\t\t\tvar found []ocispec.Descriptor\n\t\t\t\tfound = append(found, predecessors[:len(predecessors):len(predecessors)]...)\n\t\t\t\treturn found[:0], nil\n\t\t\t}\n\t\t\tpredecessors, err = src.Predecessors(ctx, desc)\n\t\t} else {\n\t\t\tpredecessors, err = fp(ctx, src, desc)\n\t\t}\n\t\tif err != nil {\n\t\t\treturn nil, err\n\t\t}\n\n\t\t// Predecessor descriptors",
+		Expect: "C03.R6.filter-keeps-every-match|(*~.ExtendedCopyGraphOptions).FilterAnnotation$wrapper|returns-page-accumulator"},
 	// --- below: see the report for which of these the repository's tests also catch ---
 	{Name: "referrers-ignores-artifact-type", File: "registry/repository.go",
 		Old: "\t\t\tnode.ArtifactType = manifest.ArtifactType\n\t\t\tif node.ArtifactType == \"\" {\n\t\t\t\tnode.ArtifactType = manifest.Config.MediaType\n\t\t\t}",
@@ -1102,8 +1462,8 @@ var c03Mutants = []Mutant{
 	{Name: "referrers-index-type-dropped", File: "registry/repository.go",
 		Old: "\t\t\tnode.ArtifactType = index.ArtifactType\n", New: "", Expect: "C03.R3"},
 	{Name: "filter-skips-artifact-manifest", File: "extendedcopy.go",
-		Old: "\t\t\t\tcase spec.MediaTypeArtifactManifest, ocispec.MediaTypeImageManifest:\n\t\t\t\t\tartifactType, err := fetchArtifactType(ctx, src, p)",
-		New: "\t\t\t\tcase ocispec.MediaTypeImageManifest:\n\t\t\t\t\tartifactType, err := fetchArtifactType(ctx, src, p)", Expect: "C03.R3.artifact-type-derivation|(*~.ExtendedCopyGraphOptions).FilterArtifactType$artifact-type|handles-artifact-manifest"},
+		Old: "\t\t\t\tcase spec.MediaTypeArtifactManifest, ocispec.MediaTypeImageManifest, ocispec.MediaTypeImageIndex:\n\t\t\t\t\tartifactType, err := fetchArtifactType(ctx, src, p)",
+		New: "\t\t\t\tcase ocispec.MediaTypeImageManifest, ocispec.MediaTypeImageIndex:\n\t\t\t\t\tartifactType, err := fetchArtifactType(ctx, src, p)", Expect: "C03.R3.artifact-type-derivation|(*~.ExtendedCopyGraphOptions).FilterArtifactType$artifact-type|handles-artifact-manifest"},
 	{Name: "root-not-recorded-when-no-predecessors", File: "extendedcopy.go",
 		Old: "\t\tif len(predecessors) == 0 {\n\t\t\taddRoot(currentKey, currentNode)\n\t\t\tcontinue\n\t\t}", New: "\t\tif len(predecessors) == 0 {\n\t\t\tcontinue\n\t\t}", Expect: "C03.R1"},
 	{Name: "depth-cutoff-off-by-one", File: "extendedcopy.go",
